@@ -1,4 +1,7 @@
-import GtirbVerif.Spec.AdtSpec
+import GtirbVerif.Lemmas.RefCache
+import GtirbVerif.Lemmas.RetCache
+import GtirbVerif.Lemmas.OMap
+import GtirbVerif.Lemmas.BOrd
 
 /-!
 # C20 — internal containers behave like their simple abstract models
@@ -61,5 +64,404 @@ theorem identityset_refines (ops : List IdOp) :
     intro s f h hn
     have := idset_step s f h hn op
     exact ih _ _ this.1 this.2
+
+/-! ## ReferenceCache = assigning `Symbol.referent` directly -/
+
+/-- what an operation lets the caller observe -/
+inductive Obs
+  | done
+  | referent (r : Option Nat)
+  | symbols (ys : List Nat)
+
+/-- the model's transition; `none` = model fuel exhausted (never observed;
+the termination bound of the two loops is not proved) -/
+def stepRC (c : RC) : RcOp → Option (Except AdtErr (RC × Obs))
+  | .retarget b t e => some ((c.retarget b t e).map (fun c' => (c', Obs.done)))
+  | .setReferent s r e => some (.ok (c.setReferent s r e, .done))
+  | .getReferent s => some ((c.getReferent s).map (fun p => (p.2, Obs.referent p.1)))
+  | .getReferences b k => (c.getReferences b k).map (fun p => .ok (p.1, .symbols p.2))
+  | .apply => c.apply.map (fun c' => .ok (c', .done))
+
+def opInRange (n : Nat) : RcOp → Prop
+  | .setReferent s _ _ => s < n
+  | .getReferent s => s < n
+  | _ => True
+
+/-- the observation is what "assign directly" prescribes -/
+def ObsOK (sp : RSpec) : RcOp → Obs → Prop
+  | .getReferent s, .referent r => r = sp.ref s
+  | .getReferences b k, .symbols ys =>
+      ys.Nodup ∧ (∀ y ∈ ys, sp.ref y = some b) ∧ ys.length ≤ k ∧
+      (ys.length < k → ∀ s, sp.ref s = some b → s ∈ ys)
+  | .retarget _ _ _, .done => True
+  | .setReferent _ _ _, .done => True
+  | .apply, .done => True
+  | _, _ => False
+
+/-- **one operation**: the concrete forest keeps standing for the abstract
+assignment, results agree, and the only refusal is the specified one -/
+theorem refcache_step {c : RC} {sp : RSpec} (hi : Inv c) (ha : Abs c sp) (op : RcOp)
+    (hr : opInRange c.nSyms op) :
+    (∀ c' obs, stepRC c op = some (.ok (c', obs)) →
+      ∃ sp', sp.step c.nSyms op = .ok sp' ∧ Inv c' ∧ Abs c' sp' ∧ c'.nSyms = c.nSyms ∧
+        ObsOK sp' op obs) ∧
+    (stepRC c op = some (.error .assertion) → sp.step c.nSyms op = .error .assertion) := by
+  cases op with
+  | retarget b t e =>
+    obtain ⟨h1, h2⟩ := retarget_refines hi ha b t e
+    constructor
+    · intro c' obs h
+      simp only [stepRC, Option.some.injEq] at h
+      cases hrt : c.retarget b t e with
+      | error er => simp [hrt, Except.map] at h
+      | ok c1 =>
+        simp only [hrt, Except.map, Except.ok.injEq, Prod.mk.injEq] at h
+        obtain ⟨rfl, rfl⟩ := h
+        obtain ⟨sp', q1, q2, q3, q4⟩ := h1 c1 hrt
+        exact ⟨sp', q1, q2, q3, q4, trivial⟩
+    · intro h
+      simp only [stepRC, Option.some.injEq] at h
+      cases hrt : c.retarget b t e with
+      | error er =>
+        simp only [hrt, Except.map, Except.error.injEq] at h
+        subst h
+        exact h2 hrt
+      | ok c1 => simp [hrt, Except.map] at h
+  | setReferent s r e =>
+    constructor
+    · intro c' obs h
+      simp only [stepRC, Option.some.injEq, Except.ok.injEq, Prod.mk.injEq] at h
+      obtain ⟨rfl, rfl⟩ := h
+      obtain ⟨q1, q2⟩ := setReferent_ok hi ha s hr r e
+      exact ⟨_, rfl, q1, q2, rfl, trivial⟩
+    · intro h; simp [stepRC] at h
+  | getReferent s =>
+    constructor
+    · intro c' obs h
+      simp only [stepRC, Option.some.injEq] at h
+      cases hg : c.getReferent s with
+      | error er => simp [hg, Except.map] at h
+      | ok p =>
+        obtain ⟨res, c1⟩ := p
+        simp only [hg, Except.map, Except.ok.injEq, Prod.mk.injEq] at h
+        obtain ⟨rfl, rfl⟩ := h
+        obtain ⟨q1, q2, q3, _, q5⟩ := getReferent_ok hi ha hr hg
+        exact ⟨sp, rfl, q2, q3, q5, q1⟩
+    · intro h
+      -- `get_referent` has no refusal: the model's only errors are fuel errors
+      simp only [stepRC, Option.some.injEq] at h
+      cases hg : c.getReferent s with
+      | ok p => simp [hg, Except.map] at h
+      | error er =>
+        exfalso
+        simp only [hg, Except.map, Except.error.injEq] at h
+        subst h
+        unfold RC.getReferent at hg
+        cases hrf : c.referents s with
+        | none => simp [hrf] at hg
+        | some n =>
+          simp only [hrf] at hg
+          cases hcl : RC.climb (c.setReferent s none (c.atEnd s)) (c.next + 1) n
+              (c.setReferent s none (c.atEnd s)).parent with
+          | none => simp [hcl] at hg
+          | some q =>
+            obtain ⟨root, b, par⟩ := q
+            simp only [hcl] at hg
+            cases hrb : (c.setReferent s none (c.atEnd s)).refs b with
+            | none => simp [hrb] at hg
+            | some p => simp [hrb] at hg
+  | getReferences b k =>
+    constructor
+    · intro c' obs h
+      simp only [stepRC] at h
+      cases hg : c.getReferences b k with
+      | none => simp [hg] at h
+      | some p =>
+        obtain ⟨c1, ys⟩ := p
+        simp only [hg, Option.map_some, Option.some.injEq, Except.ok.injEq, Prod.mk.injEq] at h
+        obtain ⟨rfl, rfl⟩ := h
+        obtain ⟨g1, g2, g3, g4, g5, g6, _, g8, _⟩ := getReferences_ok hi ha hg
+        exact ⟨sp, rfl, g1, g2, g8, g3, g4, g5, g6⟩
+    · intro h
+      simp only [stepRC] at h
+      cases hg : c.getReferences b k <;> simp [hg] at h
+  | apply =>
+    constructor
+    · intro c' obs h
+      simp only [stepRC] at h
+      cases hg : c.apply with
+      | none => simp [hg] at h
+      | some c1 =>
+        simp only [hg, Option.map_some, Option.some.injEq, Except.ok.injEq, Prod.mk.injEq] at h
+        obtain ⟨rfl, rfl⟩ := h
+        obtain ⟨g1, g2, _, _, g5⟩ := apply_ok hi ha hg
+        exact ⟨sp, rfl, g1, g2, g5, trivial⟩
+    · intro h
+      simp only [stepRC] at h
+      cases hg : c.apply <;> simp [hg] at h
+
+/-- a whole history on the model -/
+def runRC : RC → List RcOp → Option (Except AdtErr (RC × List Obs))
+  | c, [] => some (.ok (c, []))
+  | c, op :: ops =>
+    match stepRC c op with
+    | none => none
+    | some (.error e) => some (.error e)
+    | some (.ok (c', o)) =>
+      match runRC c' ops with
+      | none => none
+      | some (.error e) => some (.error e)
+      | some (.ok (c'', os)) => some (.ok (c'', o :: os))
+
+/-- the same history on the specification, with the observations it allows -/
+def AllObs (n : Nat) : RSpec → List RcOp → List Obs → Prop
+  | _, [], [] => True
+  | sp, op :: ops, o :: os =>
+    match sp.step n op with
+    | .ok sp' => ObsOK sp' op o ∧ AllObs n sp' ops os
+    | .error _ => False
+  | _, _, _ => False
+
+/-- **for every finite sequence of operations** (retarget cycles, self-retargets,
+repeated and no-op operations, `get_references` consumed to any prefix and
+abandoned, `apply` anywhere): whenever the cache completes the history, every
+result it gave is the result of assigning `Symbol.referent` directly, and the
+forest still stands for that assignment -/
+theorem refcache_refines : ∀ (ops : List RcOp) (c : RC) (sp : RSpec), Inv c → Abs c sp →
+    (∀ op ∈ ops, opInRange c.nSyms op) → ∀ c' obs, runRC c ops = some (.ok (c', obs)) →
+    Inv c' ∧ (∃ sp', Abs c' sp') ∧ AllObs c.nSyms sp ops obs
+  | [], c, sp, hi, ha, _, c', obs, h => by
+    simp only [runRC, Option.some.injEq, Except.ok.injEq, Prod.mk.injEq] at h
+    obtain ⟨rfl, rfl⟩ := h
+    exact ⟨hi, ⟨sp, ha⟩, trivial⟩
+  | op :: ops, c, sp, hi, ha, hr, c', obs, h => by
+    simp only [runRC] at h
+    cases hs : stepRC c op with
+    | none => simp [hs] at h
+    | some r =>
+      cases r with
+      | error e => simp [hs] at h
+      | ok p =>
+        obtain ⟨c1, o⟩ := p
+        simp only [hs] at h
+        obtain ⟨sp1, q1, q2, q3, q4, q5⟩ :=
+          (refcache_step hi ha op (hr op List.mem_cons_self)).1 c1 o hs
+        cases hrun : runRC c1 ops with
+        | none => simp [hrun] at h
+        | some r2 =>
+          cases r2 with
+          | error e => simp [hrun] at h
+          | ok p2 =>
+            obtain ⟨c2, os⟩ := p2
+            simp only [hrun, Option.some.injEq, Except.ok.injEq, Prod.mk.injEq] at h
+            obtain ⟨rfl, rfl⟩ := h
+            obtain ⟨r1, r2, r3⟩ := refcache_refines ops c1 sp1 q2 q3
+              (by intro op' h'; rw [q4]; exact hr op' (List.mem_cons_of_mem _ h')) c2 os hrun
+            refine ⟨r1, r2, ?_⟩
+            simp only [AllObs, q1]
+            rw [q4] at r3
+            exact ⟨q5, r3⟩
+
+/-- the cache refuses (`assert to_block`) only when assigning directly is
+impossible too: some symbol refers to the block and there is no target -/
+theorem refcache_refusal {c : RC} {sp : RSpec} (hi : Inv c) (ha : Abs c sp) (op : RcOp)
+    (hr : opInRange c.nSyms op) (h : stepRC c op = some (.error .assertion)) :
+    sp.step c.nSyms op = .error .assertion :=
+  (refcache_step hi ha op hr).2 h
+
+/-- the empty cache over symbols that all have direct referents is a valid start -/
+theorem refcache_init (n : Nat) : Inv { nSyms := n } ∧ Abs { nSyms := n } {} :=
+  ⟨inv_init n, abs_init n⟩
+
+/-- after `apply()` nothing is indirect and every symbol's own fields hold the
+abstract assignment: no symbol is stranded without its referent -/
+theorem refcache_apply_direct {c c' : RC} {sp : RSpec} (hi : Inv c) (ha : Abs c sp)
+    (h : c.apply = some c') :
+    (∀ s, c'.referents s = none) ∧ (∀ s, c'.direct s = sp.ref s ∧ c'.atEnd s = sp.atEnd s) := by
+  obtain ⟨_, _, h3, h4, _⟩ := apply_ok hi ha h
+  exact ⟨h3, h4⟩
+
+/-! ## ReturnEdgeCache = a scan of the CFG -/
+
+/-- **for every history** both indices are exactly the scans of the edge set
+(membership, key presence = non-emptiness, no duplicates) and the edge set
+itself evolves as a plain set of edges -/
+theorem retcache_refines (ops : List RetOp) :
+    RetInv (ops.foldl RetCache.step {}) ∧
+    (ops.foldl RetCache.step {}).edges = ops.foldl cfgStep [] := by
+  suffices H : ∀ (c : RetCache) (s : List Edge), RetInv c → c.edges = s →
+      RetInv (ops.foldl RetCache.step c) ∧ (ops.foldl RetCache.step c).edges = ops.foldl cfgStep s from
+    H {} [] retInv_empty rfl
+  induction ops with
+  | nil => intro c s h1 h2; exact ⟨h1, h2⟩
+  | cons op ops ih =>
+    intro c s h1 h2
+    exact ih _ _ (retInv_step h1 op) (by rw [edges_step, h2])
+
+/-- the three queries, read off the invariant -/
+theorem retcache_queries {c : RetCache} (h : RetInv c) (b : CfgNode) :
+    (∀ e, e ∈ c.blockReturn b ↔ e ∈ specBlockReturn c.edges b) ∧
+    (∀ e, e ∈ c.blockProxyReturn b ↔ e ∈ specBlockProxyReturn c.edges b) ∧
+    (c.anyReturn b = true ↔ specBlockReturn c.edges b ≠ []) := by
+  refine ⟨fun e => ?_, fun e => ?_, ?_⟩
+  · rw [RetCache.blockReturn, (h.ret b).1 e]
+    simp [specBlockReturn, and_assoc]
+  · rw [RetCache.blockProxyReturn, (h.pret b).1 e]
+    simp [specBlockProxyReturn, and_assoc]
+  · rw [RetCache.anyReturn, (h.ret b).2.1]
+    constructor
+    · rintro ⟨e, h1, h2, h3⟩ hnil
+      have : e ∈ specBlockReturn c.edges b := by simp [specBlockReturn, h1, h2, h3]
+      rw [hnil] at this; cases this
+    · intro hne
+      cases hl : specBlockReturn c.edges b with
+      | nil => exact absurd hl hne
+      | cons e _ =>
+        have : e ∈ specBlockReturn c.edges b := by rw [hl]; simp
+        simp only [specBlockReturn, List.mem_filter, Bool.and_eq_true, beq_iff_eq] at this
+        exact ⟨e, this.1, this.2.1, this.2.2⟩
+
+/-! ## make_return_cache -/
+
+theorem cfg_update_nodup : ∀ (l acc : List Edge), (acc ++ l).Nodup →
+    l.foldl (fun s e => if e ∈ s then s else s ++ [e]) acc = acc ++ l
+  | [], acc, _ => by simp
+  | e :: l, acc, h => by
+    have he : e ∉ acc := by
+      intro hin
+      exact (List.nodup_append.mp h).2.2 e hin e List.mem_cons_self rfl
+    simp only [List.foldl_cons, he, ↓reduceIte]
+    rw [cfg_update_nodup l (acc ++ [e]) (by simpa using h)]
+    simp
+
+/-- **leaving the return-cache context**: whatever the body did (through the
+cache, through a stale reference to the original CFG object, by re-assigning
+`ir.cfg`, raising or not) `ir.cfg` is the caller's object again and holds
+exactly the cache's final edges, i.e. the edges a plain CFG would hold after
+the body's cache operations; CFGModifiedError is raised iff the body finished
+normally and (the xor-hash of the original object changed or `ir.cfg` was not
+the cache at exit). The hash is weak: a modification that leaves the xor
+unchanged is *not* detected — stated here, not hidden. -/
+theorem return_cache_context (hsh : Edge → Nat) (e0 : List Edge) (ops : List BodyOp) (raises : Bool) :
+    let r := runReturnCtx hsh e0 ops raises
+    let s := ops.foldl CtxState.body (CtxState.init e0)
+    r.irCfgIsOld = true ∧ r.oldEdges = s.cache.edges ∧
+    (r.raised = if raises then some .bodyRaised
+      else if weakHash hsh s.old != weakHash hsh (CtxState.init e0).old || !s.irIsCache
+      then some .cfgModified else none) := by
+  simp only [runReturnCtx]
+  refine ⟨by first | rfl | trivial, ?_, ?_⟩
+  · -- the cache's edge list has no duplicates, so copying it into the cleared CFG is the identity
+    have hinv : ∀ (ops : List BodyOp) (s : CtxState), RetInv s.cache →
+        RetInv (ops.foldl CtxState.body s).cache := by
+      intro ops
+      induction ops with
+      | nil => intro s h; exact h
+      | cons op ops ih =>
+        intro s h
+        apply ih
+        cases op <;> simp only [CtxState.body] <;> first | exact retInv_step h _ | exact h
+    have h0 : RetInv (CtxState.init e0).cache := retInv_update retInv_empty _
+    have := (hinv ops (CtxState.init e0) h0).nodup
+    simp only [cfgStep]
+    rw [cfg_update_nodup _ [] (by simpa using this)]
+    simp
+  · by_cases hr : raises = true
+    · simp [hr]
+    · simp only [hr, Bool.false_eq_true, ↓reduceIte, Bool.or_eq_true]
+      split
+      · simp_all
+      · split <;> simp_all
+
+/-! ## BlockOrdering = a plain list of disjoint chains -/
+
+theorem ordering_empty : Repr {} [] := repr_empty
+
+/-- `adjacent_blocks` = the neighbours in the chain; KeyError for unknown blocks -/
+theorem ordering_adjacent {o : BOrd} {cs : Chains} (h : Repr o cs) (b : Nat) :
+    (b ∉ cs.flatten → o.adjacent b = .error .keyError) ∧
+    (∀ pre post, (pre ++ b :: post) ∈ cs → o.adjacent b = .ok (pre.getLast?, post.head?)) :=
+  adjacent_spec h b
+
+theorem ordering_remove {o : BOrd} {cs1 cs2 : Chains} {pre post : List Nat} {b : Nat}
+    (h : Repr o (cs1 ++ (pre ++ b :: post) :: cs2)) :
+    ∃ o', o.remove b = .ok o' ∧
+      Repr o' (cs1 ++ (if pre ++ post = [] then [] else [pre ++ post]) ++ cs2) :=
+  remove_spec h
+
+theorem ordering_insert_after {o : BOrd} {cs1 cs2 : Chains} {pre post : List Nat} {a : Nat}
+    (bs : List Nat) (h : Repr o (cs1 ++ (pre ++ a :: post) :: cs2))
+    (hnot : ∀ x ∈ bs, x ∉ (cs1 ++ (pre ++ a :: post) :: cs2).flatten) (hnd : bs.Nodup) :
+    ∃ o', o.primitiveInsert (some a) bs = .ok o' ∧
+      Repr o' (cs1 ++ (pre ++ a :: (bs ++ post)) :: cs2) :=
+  insertAfter_spec bs h hnot hnd
+
+theorem ordering_add_detached {o : BOrd} {cs : Chains} (b : Nat) (bs : List Nat) (h : Repr o cs)
+    (hnot : ∀ x ∈ b :: bs, x ∉ cs.flatten) (hnd : (b :: bs).Nodup) :
+    ∃ o', o.primitiveInsert none (b :: bs) = .ok o' ∧ Repr o' (cs ++ [b :: bs]) :=
+  addDetached_spec b bs h hnot hnd
+
+theorem ordering_refusals {o : BOrd} {cs : Chains} (h : Repr o cs) (after : Option Nat)
+    (bs : List Nat) :
+    ((∃ x ∈ bs, x ∈ cs.flatten) → o.primitiveInsert after bs = .error .valueError) ∧
+    ((∀ x ∈ bs, x ∉ cs.flatten) → ∀ a, after = some a → a ∉ cs.flatten →
+      o.primitiveInsert after bs = .error .keyError) :=
+  insert_refusals h after bs
+
+theorem ordering_remove_unknown {o : BOrd} {cs : Chains} (h : Repr o cs) (b : Nat)
+    (hb : b ∉ cs.flatten) : o.remove b = .error .keyError := by
+  have : o.mem b = false := by
+    cases hm : o.mem b with
+    | false => rfl
+    | true => exact absurd ((h.mem b).mp hm) hb
+  simp [BOrd.remove, this]
+
+/-! ## OffsetMapping = a dictionary keyed by (element, displacement) -/
+
+theorem offsetmap_get (m : OMap) (e d : Nat) :
+    m.getO e d = match (absOMap m).val e d with
+      | some v => .ok v
+      | none => .error .keyError := omap_getO m e d
+
+theorem offsetmap_contains (m : OMap) (e d : Nat) :
+    m.containsO e d = ((absOMap m).val e d).isSome ∧ m.containsE e = (absOMap m).elem e :=
+  ⟨omap_containsO m e d, omap_containsE m e⟩
+
+theorem offsetmap_set (m : OMap) (e d v : Nat) :
+    (absOMap (m.setO e d v)).val = (fun e' d' => if e' = e ∧ d' = d then some v else (absOMap m).val e' d') ∧
+    (absOMap (m.setO e d v)).elem = (fun e' => if e' = e then true else (absOMap m).elem e') :=
+  omap_setO m e d v
+
+theorem offsetmap_set_element (m : OMap) (e : Nat) (sub : SubDict) :
+    (absOMap (m.setE e sub)).val = (fun e' d' => if e' = e then dictGet d' sub else (absOMap m).val e' d') ∧
+    (absOMap (m.setE e sub)).elem = (fun e' => if e' = e then true else (absOMap m).elem e') :=
+  omap_setE m e sub
+
+theorem offsetmap_del (m : OMap) (e d : Nat) :
+    match m.delO e d with
+    | .error err => err = .keyError ∧ (absOMap m).val e d = none
+    | .ok m' => (absOMap m).val e d ≠ none ∧
+        (absOMap m').val = (fun e' d' => if e' = e ∧ d' = d then none else (absOMap m).val e' d') ∧
+        (absOMap m').elem = (absOMap m).elem := omap_delO m e d
+
+theorem offsetmap_del_element (m : OMap) (e : Nat) :
+    match m.delE e with
+    | .error err => err = .keyError ∧ (absOMap m).elem e = false
+    | .ok m' => (absOMap m).elem e = true ∧
+        (absOMap m').val = (fun e' d' => if e' = e then none else (absOMap m).val e' d') ∧
+        (absOMap m').elem = (fun e' => if e' = e then false else (absOMap m).elem e') := omap_delE m e
+
+/-! ## non-vacuity -/
+
+/-- a cycle of retargets A→B, B→A followed by a read is a history the model
+completes (the hypotheses of `refcache_refines` are met) -/
+example : (match runRC (({ nSyms := 2 } : RC).setReferent 0 (some 0) false)
+    [.retarget 0 (some 1) false, .retarget 1 (some 0) true, .getReferent 0, .getReferences 0 1, .apply]
+    with | some (.ok _) => true | _ => false) = true := by
+  decide +kernel
+
+example : RetInv ((({} : RetCache).add ⟨.block 0, .proxy 0, some ⟨3, false, true⟩⟩).discard
+    ⟨.block 0, .proxy 0, some ⟨3, false, true⟩⟩) :=
+  retInv_discard (retInv_add retInv_empty _) _
 
 end GtirbVerif.Props.C20
